@@ -24,7 +24,15 @@ def main(argv=None):
             core.bind_repo()
             return mod.replay(data)
         return 0
-    return core.main_run(a.pid.upper(), a.tier, a.seed)
+    # two runs of one check in the same copy of /verif (say one against /repo, one against a scratch tree) would
+    # regenerate the same tables and kernels under each other: serialise them per property
+    import fcntl
+
+    lockdir = os.path.join(core.LEAN, ".lake")
+    os.makedirs(lockdir, exist_ok=True)
+    with open(os.path.join(lockdir, "run-%s.lock" % a.pid.upper()), "w") as lk:
+        fcntl.flock(lk, fcntl.LOCK_EX)
+        return core.main_run(a.pid.upper(), a.tier, a.seed)
 
 
 if __name__ == "__main__":
